@@ -61,7 +61,7 @@ def expand_spectrum(r, nf):
 @st.composite
 def strategy(draw):
     n = draw(st.one_of(st.integers(16, 300), st.integers(16, 4096), st.sampled_from([64, 128, 1024, 4096])))
-    dt = draw(st.sampled_from(gen.DTS))
+    dt = draw(gen.choice(gen.DTS))
     nf = n // 2 + 1
     f = np.fft.rfftfreq(n, dt)
     df = float(f[1])
